@@ -15,7 +15,7 @@ EXPLANATION = (
     "produced the text, or guarded. C18.d no use of a possibly-unassigned local. C18.e values that may be None (a "
     "function that can fall off its end; the remaining AST of an action-only parser) are not used unconditionally. "
     "C18.f error constructors whose message reads `.value` receive tokens. C18.g unbounded macro recursion is refused. "
-    "C18.h the driver catches, per phase, what can escape.")
+    "C18.h the driver catches, per phase, what can escape. C18.i/j .index() and ord() on symbol collections. C18.k next() without a default, C18.m coll.remove(x) / del coll[k]: guarded, or triaged with the construct that guarantees presence, re-matched on every run. C18.l a constructor that raises a diagnosed error citing `self` has assigned every field its debug_lookup reads when the message is rendered.")
 NOT_DECIDED = ("termination of the compiler's fixpoint loops (optimisation loop, class splitting, partition refinement) - a variant argument over heap graphs; "
                "IndexError / AttributeError / RecursionError in general (only the flows above)")
 ENGINES = ["E1 source model", "E2 grammar model", "E3 dispatch", "E9 definite assignment / fall-off analysis"]
